@@ -241,8 +241,8 @@ def r3_callsites(ctx):
         short_name = fpath.split("::")[1]
         E = e6.Exec(c, fn)
         live = [p for p in E.run_fn() if p.exit is None or p.exit[0] == "return"]
-        if len(live) != 1:
-            raise Unestablished("%s: expected one non-panicking path, found %d" % (fpath, len(live)), c.loc(fn))
+        if not live:
+            raise Unestablished("%s: no non-panicking path" % fpath, c.loc(fn))
         P = live[0]
 
         def has_update(lid):
@@ -254,8 +254,8 @@ def r3_callsites(ctx):
                         return True
             return False
         walks = [e[1] for e in P.eff if e[0] == "loop" and has_update(e[1])]
-        if len(walks) != 1:
-            raise Unestablished("no traversal of self.layers calling the optimizer in %s" % fpath, c.loc(fn))
+        if len(walks) != 1 or any([e[1] for e in q_.eff if e[0] == "loop" and has_update(e[1])] != walks for q_ in live):
+            raise Unestablished("no (single, unconditional) traversal of self.layers calling the optimizer in %s" % fpath, c.loc(fn))
         lid = walks[0]
         L = E.loop_summaries[lid]
         wloc = c.loc(fn, L["node"])
@@ -306,7 +306,7 @@ def r3_callsites(ctx):
             return None
         seen = {}
         for q in L["paths"]:
-            if q.exit is not None:
+            if q.exit is not None and q.exit[0] != "continue":      # `continue` of the walk ends the iteration like falling through
                 continue
             vp = e6.variant_of(q).get(LAYER)
             if vp is None:
@@ -364,13 +364,32 @@ def r3_callsites(ctx):
                     zp = e6.is_call(fen[0], "zip", 2) if fen else None
                     fps = [e6.Path({}, pc=x[0], eff=x[1], exit=x[2], val=x[3]) for x in loops[0][3]]
                     fu = [e for e in fps[0].eff if e[0] == "mut" and e[1] == "optimizer::Optimizer::update"] if len(fps) == 1 else []
-                    if not zp or len(fps) != 1 or fps[0].pc or fps[0].exit is not None or len(fu) != 1 or len([e for e in fps[0].eff if e[0] != "loop"]) != 1:
+                    fel0 = ("elem", e6.strip_upd(fsrc), loops[0][1])
+                    if fen and not zp and e6.strip_upd(fen[0]) == ("field", pay, "kernels") and len(fps) == 2:
+                        # hand-written zip: `for (f, k) in kernels.iter_mut().enumerate() { let g = match grads.get_mut(f) { Some(g) => g, None => break }; update(.., k, g) }`
+                        run_ = [x for x in fps if x.exit is None]
+                        stop_ = [x for x in fps if x.exit is not None and x.exit[0] == "break"]
+                        okz = False
+                        if len(run_) == 1 and len(stop_) == 1 and not [e for e in stop_[0].eff if e[0] != "loop"] and len(run_[0].pc) == 1 and run_[0].pc[0][1]:
+                            t_ = run_[0].pc[0][0]
+                            gm = e6.is_call(t_[1], "get_mut", 2) if isinstance(t_, tuple) and t_[0] == "is" and t_[2] == "Option::Some" else None
+                            fu2 = [e for e in run_[0].eff if e[0] != "loop"]
+                            if gm and gm[1] == ("proj", fel0, 0) and len(fu2) == 1 and fu2[0][0] == "mut" and fu2[0][1] == "optimizer::Optimizer::update":
+                                split = e6.is_call(e6.strip_upd(e6.entry_value(q, gm[0])), "quadruple_to_vec_triple", 1)
+                                g = grad_base(split[0]) if split else None
+                                a = tuple(e6.strip_upd(x) for x in fu2[0][3])
+                                okz = (g and len(a) == 6 and I == a[0] and a[1] == ("proj", fel0, 0) and a[2] == ("lit", "false") and a[3] == STEP
+                                       and a[4] == ("proj", fel0, 1) and a[5] == ("payload", e6.strip_upd(t_[1]), "Option::Some", 0))
+                                if okz:
+                                    roles.setdefault("W", set()).add(g)
+                        if not okz:
+                            why = "filter loop over %s is not a zip of kernels and gradients" % e6.show(fsrc, 3)[:80]
+                    elif not zp or len(fps) != 1 or fps[0].pc or fps[0].exit is not None or len(fu) != 1 or len([e for e in fps[0].eff if e[0] != "loop"]) != 1:
                         why = "filter loop over %s with %d path(s)" % (e6.show(fsrc, 3)[:80], len(fps))
                     else:
                         split = e6.is_call(zp[1], "quadruple_to_vec_triple", 1)
                         g = grad_base(split[0]) if split else None
                         a = tuple(e6.strip_upd(x) for x in fu[0][3])
-                        fel0 = ("elem", e6.strip_upd(fsrc), loops[0][1])
                         okk = (zp[0] == ("field", pay, "kernels") and g and len(a) == 6 and I == a[0] and a[1] == ("proj", fel0, 0) and a[2] == ("lit", "false") and a[3] == STEP
                                and a[4] == ("proj", ("proj", fel0, 1), 0) and a[5] == ("proj", ("proj", fel0, 1), 1))
                         if not okk:
